@@ -140,6 +140,15 @@ pub fn drive(args: &[String]) {
             fns: vec![(bits & 4 != 0, bits & 8 != 0, 1, vec![(bits & 16 != 0, 1), (true, 0)])] };
         emit(&s, &mut out); shapes += 1;
     }
+    // nothing but the optional parts: no instruction at all (header only / nothing), hollow functions (no definition, no
+    // end, no blocks; blocks without label and without instructions)
+    for header in [true, false] {
+        for mm in [false, true] {
+            for fns in [vec![], vec![(false, false, 0, vec![])], vec![(false, false, 0, vec![(false, 0)]), (false, false, 0, vec![])], vec![(true, false, 0, vec![(true, 0)])]] {
+                emit(&Shape { sections: [0; 10], header, mm, fns }, &mut out); shapes += 1;
+            }
+        }
+    }
     // exactly one non-empty section / exactly one empty section
     for i in 0..10 {
         for n in 1..3 {
